@@ -493,7 +493,7 @@ fn replay(ctx: &mut Ctx) {
     }
 }
 
-pub const RULE: &str = "generated PROGRAMS: trees (depth <= 3) of #[metrics] structs and entry enums with every combination of rename_all (none/PascalCase/snake_case/kebab-case), container prefix / exact_prefix, flatten with prefix / exact_prefix / none (incl. > 100-byte prefix chains), name overrides, unit attributes, ignore, Option Some/None, #[metrics(value)] newtypes, value(string) enums with variant name overrides, tag(name | name_exact [, sample_group]), sample_group fields, unit / tuple / struct variants, subfield / subfield_owned; identifiers with digits, acronyms and doubled delimiters. Written as Rust source into scratch crates (path deps on /repo), compiled, run. Oracle: a reference interpreter of the documented naming rules evaluated on the same tree (case conversion itself delegated to the Inflector crate, the composition is under test): exact ordered list of (name, string|metric, value, unit) and the sample-group pairs. Non-trivial = a root whose tree has >= 2 different explicit styles or a prefix chain of length >= 2";
+pub const RULE: &str = "generated PROGRAMS: trees (depth <= 3) of #[metrics] structs and entry enums with every combination of rename_all (none/PascalCase/snake_case/kebab-case), container prefix / exact_prefix, flatten with prefix / exact_prefix / none (incl. > 100-byte prefix chains), name overrides, unit attributes, ignore, Option Some/None, #[metrics(value)] newtypes, value(string) enums with variant name overrides, tag(name | name_exact [, sample_group]), sample_group fields, unit / tuple / struct variants, subfield / subfield_owned; identifiers with digits, acronyms and doubled delimiters; 25-60 root types per crate (one macro process), with words that occur as a field name in one type and as a flatten prefix (with or without trailing delimiter) in another. Written as Rust source into scratch crates (path deps on /repo), compiled, run. Oracle: a reference interpreter of the documented naming rules evaluated on the same tree (case conversion itself delegated to the Inflector crate, the composition is under test): exact ordered list of (name, string|metric, value, unit) and the sample-group pairs. Non-trivial = a root whose tree has >= 2 different explicit styles or a prefix chain of length >= 2";
 
 pub fn run(ctx: &mut Ctx) {
     ctx.assume("programs are sampled; macro rejections (compile errors) are outside the property: a generated program that fails to compile makes the run inconclusive (exit 2), never a violation");
